@@ -224,7 +224,15 @@ def reachable_functions(prog, roots):
             continue
         seen.add(f.qualname)
         out.append(f)
+        params = {a.arg for a in ast.walk(f.node) if isinstance(a, ast.arg)}
         for n in ast.walk(f.node):
+            if isinstance(n, (ast.Name, ast.Attribute)) and isinstance(getattr(n, "ctx", None), ast.Load):
+                # a function handed over as a value (partial(f, ..), reduce(f, ..), map(f, ..), a callback) may be called
+                parts = dotted_parts(n)
+                r = prog.resolve_chain(f.module.name, parts) if parts and parts[0] not in params else None
+                if r is not None and r[0] == "func" and r[1].qualname.startswith(prog.pkgname + "."):
+                    work.append(r[1])
+                continue
             if not isinstance(n, ast.Call):
                 continue
             parts = dotted_parts(n.func)
@@ -350,6 +358,10 @@ def hidden_state(prog, roots, allow=()):
                     cn = ".".join(cp)
                     if cp and (cp[-1] in ("rpc_method", "recv", "recv_into", "urandom", "token_bytes", "randbelow", "randbits", "listdir", "getsize", "time", "monotonic", "input") or
                                cn in ("open", "os.stat", "os.path.exists", "os.path.getsize", "socket.socket")):
+                        if cn == "open" and x.args and any(isinstance(n_, ast.Name) and n_.id == "__file__" for n_ in ast.walk(x.args[0])) and \
+                                (len(x.args) < 2 or (isinstance(x.args[1], ast.Constant) and x.args[1].value in ("r", "rb", "rt"))) and \
+                                not any(k.arg == "mode" and not (isinstance(k.value, ast.Constant) and k.value.value in ("r", "rb", "rt")) for k in x.keywords):
+                            continue  # reading a data file of the package itself (next to the module): part of the program, not of the world
                         out.append((f, x, "is memoised but asks the outside world (%s): a later call gets the first answer again" % cn))
             for x in ast.walk(fn):
                 if isinstance(x, ast.Name) and isinstance(x.ctx, ast.Load) and x.id not in local and (modname, x.id) in reassigned and x.id not in allow:
